@@ -534,32 +534,38 @@ def run(prop, tier, seed, replay=None, extra_cov=None):
                 continue
             violations.append((k, recdir, trn, obs))
     probe_stats = {}
-    if prop == "C15" and (not replay or json.load(open(replay)).get("kind") == "stale-probe"):
-        # ten-minute rule between two ticks of the trace clock (nanosecond offsets around 600 s)
-        out = os.path.join(wd, "rec-staleprobe")
-        sh("%s/drive-client staleprobe --out %s" % (bindir, out), timeout=600)
+    PROBES = {"C15": ["staleprobe", "tinyprobe"], "C12": ["eventsprobe"], "C17": ["eventsprobe"]}
+    if prop in PROBES and (not replay or json.load(open(replay)).get("kind") == "stale-probe"):
+        # small scripted probes of the real client for what the walks cannot express: nanosecond offsets
+        # around the ten-minute rule, first samples below one microsecond (C15); events left uncollected
+        # before a refused request / a rejected buffer (C12 / C17). Judged by TraceStale.tla.
+        out = os.path.join(wd, "rec-probes")
+        os.makedirs(out, exist_ok=True)
         tf = os.path.join(out, "trace.ndjson")
-        # ... and first samples of 1 ns - 1 us (not zero) followed by an ordinary one
-        out_t = os.path.join(wd, "rec-tinyprobe")
-        sh("%s/drive-client tinyprobe --out %s" % (bindir, out_t), timeout=600)
-        with open(tf, "a") as f, open(os.path.join(out_t, "trace.ndjson")) as g:
-            f.write(g.read())
+        with open(tf, "w") as f:
+            for pr in PROBES[prop]:
+                o_ = os.path.join(wd, "rec-" + pr)
+                sh("%s/drive-client %s --out %s" % (bindir, pr, o_), timeout=600)
+                f.write(open(os.path.join(o_, "trace.ndjson")).read())
         pbad, _, ptotal, _ = tlc_trace("TraceStale.tla", "TraceStale.cfg", tf, wd, timeout=600)
+        pbad = [b_ for b_ in pbad if b_[0] == prop]
         plines = [json.loads(l) for l in open(tf)]
         for (p, line, trn, info) in pbad[:3]:
             o = plines[line - 1]
             os.makedirs(REPLAYS, exist_ok=True)
-            path = replay or os.path.join(REPLAYS, "C15-staleprobe-%s.json" % digest(o))
+            path = replay or os.path.join(REPLAYS, "%s-probe-%s.json" % (prop, digest(o)))
             if not replay:
-                json.dump({"property": "C15", "kind": "stale-probe", "record": o,
-                           "note": "sub-microsecond probe of the RTT estimator (stale threshold or tiny first sample); "
-                                   "re-run with ./check C15 --replay <this file>"},
+                json.dump({"property": prop, "kind": "stale-probe", "record": o,
+                           "note": "scripted probe of the real client (see drive-client %s); "
+                                   "re-run with ./check %s --replay <this file>" % ("/".join(PROBES[prop]), prop)},
                           open(path, "w"), indent=1)
-            print("VIOLATION property=C15 replay=%s" % path)
+            print("VIOLATION property=%s replay=%s" % (prop, path))
             violations.append((0, out, trn, {"op": "stale", "t": 0, "res": "", "ev": []}))
-        probe_stats = {"records": ptotal, "rejected": len(pbad),
-                       "rule": "second request 600 s + d ns after the first, d in {-1 ms .. +1 ms incl. +-1, 400, 999 ns}: "
-                               "configured RTO iff d > 0 (TraceStale.tla)"}
+        probe_stats = {"probes": PROBES[prop], "records": ptotal, "rejected": len(pbad),
+                       "rule": "scripted probes judged by TraceStale.tla: staleprobe = second request 600 s + d ns after "
+                               "the first (configured RTO iff d > 0); tinyprobe = first sample of 1 ns - 1 us, then the RTO "
+                               "of the third request against RFC 6298 in nanoseconds; eventsprobe = events left uncollected "
+                               "before a refused request / rejected buffer / idle timer call are still there afterwards"}
         total_lines += ptotal
     if not samples:
         samples = [["(no non-trivial trace short enough to print)"]]
@@ -592,7 +598,7 @@ def run(prop, tier, seed, replay=None, extra_cov=None):
             "known_findings_hit": sorted(set(known_hits)),
             "spec_to_code_replays": mbt_stats,
             "repository_tests_validated": repo_stats,
-            **({"stale_threshold_probe": probe_stats} if probe_stats else {}),
+            **({"scripted_probes": probe_stats} if probe_stats else {}),
             "exhaustive": False,
             **(extra_cov or {}),
         }, time.time() - t0, len(violations),
